@@ -1007,7 +1007,7 @@ static Json gen_deflate(Rng &r0, const std::string &focus, int tier)
         // one or two vector stores' worth of output space - the position of the window's end sweeps over the dense run
         bool dense_out = r.chance(1, focus == "C05" || focus == "C10" ? 8 : 12) || getenv("SIM_FORCE_DENSE"); // (the variable: diagnostic hand runs only)
         if (dense_out) {
-                static const int dks[] = { DK_RARE, DK_RARE, DK_LITCOPY, DK_LITCOPY, DK_FARCOPY, DK_ALLSYMS };
+                static const int dks[] = { DK_RARE, DK_RARE, DK_LITCOPY, DK_LITCOPY, DK_FARCOPY, DK_ALLSYMS, DK_DISTSKEW, DK_DISTSKEW };
                 Json d5 = Json::obj();
                 d5.set("k", r.pick(dks)).set("n", (uint64_t) (12000 + r.below(50000))).set("s", r.u64() >> 16).set("p", (uint64_t) r.below(2000));
                 p.set("data", d5);
